@@ -222,15 +222,16 @@ fn gen_note(rng: &mut Rng) -> Note {
         let sessions = 1 + rng.size(2, 4) as usize;
         let top = 1 + rng.size(30, 90) as u32;
         let mut per = gen_disjoint(rng, top, sessions);
-        match rng.below(12) {
-            0 => {
-                // overlap: repeat or widen a range in another session
+        match rng.below(30) {
+            0 | 1 => {
+                // overlap: an arbitrary extra range in some session
                 let extra = gen_any_range(rng);
                 let k = rng.below(sessions as u64) as usize;
                 per[k].push(extra);
                 outside = Some("overlapping-ranges");
             }
-            1 => {
+            2 => {
+                // duplicate: repeat a range in some session
                 if let Some(r) = per.iter().flatten().next().cloned() {
                     let k = rng.below(sessions as u64) as usize;
                     per[k].push(r);
@@ -568,7 +569,7 @@ impl Drop for FakeGit {
 /// a record the generator knows the meaning of
 struct Rec {
     counts: Option<(u64, u64)>,
-    shown: String, // the path field as git prints it
+    real: String, // the path as the repository has it (what the ignore patterns are about)
 }
 
 fn git_quote(path: &[u8]) -> String {
@@ -597,20 +598,24 @@ fn git_quote(path: &[u8]) -> String {
     s
 }
 
-fn gen_numstat_path(rng: &mut Rng) -> String {
-    match rng.below(14) {
+/// (path as git prints it, the real path)
+fn gen_numstat_path(rng: &mut Rng) -> (String, String) {
+    let real: String = match rng.below(16) {
         0 => "Cargo.lock".into(),
         1 => "sub/dir/yarn.lock".into(),
         2 => "web/node_modules/x/index.js".into(),
         3 => "app.min.js".into(),
-        4 => git_quote("a\tb.txt".as_bytes()),
-        5 => git_quote("caf\u{e9}.lock".as_bytes()),
-        6 => git_quote("q\"uote\\.rs".as_bytes()),
+        4 => "a\tb.txt".into(),
+        5 => "caf\u{e9}.lock".into(),
+        6 => "q\"uote\\.rs".into(),
+        // not producible with --no-renames, but the parser must treat them as plain names
         7 => "src/{old => new}/mod.rs".into(),
         8 => "a.txt => b.lock".into(),
         9 => "{ => vendor}/lib.go".into(),
         10 => "with space.txt".into(),
-        11 => git_quote(gen_path(rng).as_bytes()),
+        11 => gen_path(rng).replace('\n', "\u{1}"),
+        12 => "\u{65e5}\u{672c}/vendor/\u{1f642}.rs".into(),
+        13 => "tab\there/x.snap".into(),
         _ => {
             let n = 1 + rng.below(3);
             let mut s = String::new();
@@ -622,7 +627,8 @@ fn gen_numstat_path(rng: &mut Rng) -> String {
             }
             s
         }
-    }
+    };
+    (git_quote(real.as_bytes()), real)
 }
 
 fn gen_count(rng: &mut Rng, huge: bool) -> u64 {
@@ -652,8 +658,10 @@ fn numstat_case(fg: &FakeGit, text: &str, recs: Option<&[Rec]>, patterns: &[Stri
     let mut ignored: BTreeSet<String> = BTreeSet::new();
     for line in text.lines() {
         for piece in line.split('\t') {
-            if should_ignore_file_with_matcher(piece, &matcher) {
-                ignored.insert(piece.to_string());
+            for cand in [piece.to_string(), git_ai::utils::unescape_git_path(piece)] {
+                if should_ignore_file_with_matcher(&cand, &matcher) {
+                    ignored.insert(cand);
+                }
             }
         }
     }
@@ -664,7 +672,7 @@ fn numstat_case(fg: &FakeGit, text: &str, recs: Option<&[Rec]>, patterns: &[Stri
         let (mut ea, mut ed, mut ia, mut id) = (0u64, 0u64, 0u64, 0u64);
         let mut n_ign = 0;
         for r in recs {
-            let ig = should_ignore_file_with_matcher(&r.shown, &matcher);
+            let ig = should_ignore_file_with_matcher(&r.real, &matcher);
             if ig {
                 n_ign += 1;
             }
@@ -724,14 +732,14 @@ fn gen_numstat(rng: &mut Rng, fg: &FakeGit, em: &mut Emitter) {
         let mut recs = Vec::new();
         let mut text = String::new();
         for _ in 0..n {
-            let shown = gen_numstat_path(rng);
+            let (shown, real) = gen_numstat_path(rng);
             if rng.chance(1, 7) {
                 text.push_str(&format!("-\t-\t{shown}\n"));
-                recs.push(Rec { counts: None, shown });
+                recs.push(Rec { counts: None, real });
             } else {
                 let (a, d) = (gen_count(rng, huge), gen_count(rng, huge));
                 text.push_str(&format!("{a}\t{d}\t{shown}\n"));
-                recs.push(Rec { counts: Some((a, d)), shown });
+                recs.push(Rec { counts: Some((a, d)), real });
             }
         }
         numstat_case(fg, &text, Some(&recs), &patterns, em, "gen-numstat");
@@ -752,12 +760,68 @@ fn gen_numstat(rng: &mut Rng, fg: &FakeGit, em: &mut Emitter) {
                 9 => text.push_str(&format!("{}x\t{}\tjunk.rs\n", rng.below(9), rng.below(9))),
                 10 => text.push_str(&format!(" {}\t{}\tlead.rs\n", rng.below(9), rng.below(9))),
                 11 => text.push_str(&format!("{}\t{}\t\n", rng.below(9), rng.below(9))),
-                12 => text.push_str(&format!("{}\t \t{}\n", rng.below(9), gen_numstat_path(rng))),
-                13 => text.push_str(&format!("{}\t{}\t{}", rng.below(9), rng.below(9), gen_numstat_path(rng))), // no newline
-                _ => text.push_str(&format!("{}\t{}\t{}\n", rng.below(90), rng.below(90), gen_numstat_path(rng))),
+                12 => text.push_str(&format!("{}\t \t{}\n", rng.below(9), gen_numstat_path(rng).0)),
+                13 => text.push_str(&format!("{}\t{}\t{}", rng.below(9), rng.below(9), gen_numstat_path(rng).0)), // no newline
+                _ => text.push_str(&format!("{}\t{}\t{}\n", rng.below(90), rng.below(90), gen_numstat_path(rng).0)),
             }
         }
         numstat_case(fg, &text, None, &patterns, em, "gen-numstat-text");
+    }
+}
+
+/// `unescape_git_path` against the model, and against git's quoting (round trip).
+fn unescape_case(text: &str, from_bytes: Option<&[u8]>, em: &mut Emitter, tag: &str) {
+    let t = text.to_string();
+    let imp = match catch(move || git_ai::utils::unescape_git_path(&t)) {
+        Ok(s) => json!({"text": s}),
+        Err(_) => json!({"panic": true}),
+    };
+    let mut oracles = vec![oracle("unescape_no_panic", imp.get("panic").is_none(), json!({"text": text}), "unescape-panic")];
+    let mut tags = vec![tag.to_string()];
+    if let Some(b) = from_bytes {
+        let want = String::from_utf8_lossy(b).to_string();
+        oracles.push(oracle("unescape_roundtrip", imp["text"].as_str() == Some(&want), json!({"bytes": b, "printed": text, "got": imp}), "unescape-roundtrip"));
+        tags.push(format!("unescape:{}", if std::str::from_utf8(b).is_ok() { "utf8" } else { "invalid-utf8" }));
+        tags.push(format!("unescape:{}", if text.starts_with('"') { "quoted" } else { "plain" }));
+    }
+    em.emit("c19", json!({"op": "st_unescape", "text": text}), imp, oracles, tags);
+}
+
+fn gen_unescape(rng: &mut Rng, em: &mut Emitter) {
+    if rng.chance(2, 3) {
+        // bytes of a path → git's printing → back
+        let n = 1 + rng.size(6, 14);
+        let mut b: Vec<u8> = Vec::new();
+        for _ in 0..n {
+            match rng.below(12) {
+                0 => b.extend_from_slice("\u{e9}".as_bytes()),
+                1 => b.extend_from_slice("\u{65e5}".as_bytes()),
+                2 => b.extend_from_slice("\u{1f642}".as_bytes()),
+                3 => b.push(rng.below(256) as u8), // often invalid UTF-8
+                4 => b.push(rng.pick(&[b'\t', b'"', b'\\', 0x7f, 1, 0x0b, b'\r', b' '])),
+                5 => b.push(rng.pick(&[0xc3, 0xe2, 0x82, 0xf0, 0x9f, 0xed, 0xa0, 0xe0, 0x80, 0xf4, 0x90, 0xc0, 0xff])),
+                _ => b.push(rng.pick(&[b'a', b'b', b'/', b'.', b'x', b'0', b'7', b'8', b'-'])),
+            }
+        }
+        b.retain(|x| *x != 0 && *x != b'\n');
+        let printed = git_quote(&b);
+        unescape_case(&printed, Some(&b), em, "gen-unescape-roundtrip");
+    } else {
+        let n = rng.size(6, 14);
+        let mut s = String::new();
+        if rng.chance(3, 4) {
+            s.push('"');
+        }
+        for _ in 0..n {
+            s.push_str(rng.pick(&[
+                "a", "b", "\\", "\\\\", "\\\"", "\"", "\\n", "\\t", "\\q", "\\8", "\\9", "\\0", "\\7", "\\12", "\\303\\251", "\\400",
+                "\\777", "\\342\\202", "\\355\\240\\200", "\\1234", "\u{e9}", "\u{1f642}", "8", "0", " ", "\\a\\b\\f\\v\\r", "\\x41",
+            ]));
+        }
+        if rng.chance(3, 4) {
+            s.push('"');
+        }
+        unescape_case(&s, None, em, "gen-unescape-text");
     }
 }
 
@@ -797,6 +861,7 @@ pub fn run(seed: u64, count: u64, corpus: Option<&str>, em: &mut Emitter) {
                             "corpus-from-log",
                         );
                     }
+                    Some("unescape") => unescape_case(v["text"].as_str().unwrap(), None, em, "corpus-unescape"),
                     Some("numstat") => {
                         if let Some(fg) = &fg {
                             let pats: Vec<String> = match v.get("patterns") {
@@ -813,10 +878,29 @@ pub fn run(seed: u64, count: u64, corpus: Option<&str>, em: &mut Emitter) {
     }
     let mut rng = Rng::new(seed);
     for i in 0..count {
-        match i % 8 {
+        match i % 9 {
+            8 => gen_unescape(&mut rng, em),
             0 => {
-                let r = gen_any_range(&mut rng);
                 let added = gen_sorted_lines(&mut rng);
+                // mostly ranges whose ends sit on or next to added lines (the boundary cases)
+                let r = if !added.is_empty() && rng.chance(3, 4) {
+                    let near = |rng: &mut Rng| -> u32 {
+                        let v = added[rng.below(added.len() as u64) as usize];
+                        match rng.below(4) {
+                            0 => v.saturating_sub(1),
+                            1 => v.saturating_add(1),
+                            _ => v,
+                        }
+                    };
+                    if rng.chance(1, 3) {
+                        LineRange::Single(near(&mut rng))
+                    } else {
+                        let (a, b) = (near(&mut rng), near(&mut rng));
+                        if rng.chance(9, 10) { LineRange::Range(a.min(b), a.max(b)) } else { LineRange::Range(a.max(b), a.min(b)) }
+                    }
+                } else {
+                    gen_any_range(&mut rng)
+                };
                 overlap_case(&r, &added, em, "gen-overlap");
             }
             1 | 2 | 3 => {
